@@ -115,11 +115,13 @@ func main() {
 	lap("(iii) generated headers")
 	runLongLines(o)
 	lap("(iii-b) long opening lines")
+	runEdited(o, r.Pick(4_000, 80_000))
+	lap("(v) edited parsed headers")
 	runStream(o)
 	lap("(iv) streamed payload lengths")
 
 	// sanity: each part must have produced both verdicts
-	for _, p := range []string{"tokens", "mutation", "intro", "generated", "longline", "stream"} {
+	for _, p := range []string{"tokens", "mutation", "intro", "generated", "longline", "edited", "stream"} {
 		if r.Counter("accepted_"+p) == 0 {
 			r.Inconclusive("part %+q accepted no input", p)
 		}
@@ -132,6 +134,13 @@ func main() {
 	if r.Counter("accepted_by_reference") == 0 {
 		r.Inconclusive("the reference grammar accepted nothing: differential vacuous")
 	}
+	tabMu.Lock()
+	for _, k := range editKinds {
+		if tabTotals["edit_applied"][k] == 0 {
+			r.Inconclusive("part (v): edit %q was never applied", k)
+		}
+	}
+	tabMu.Unlock()
 	flushTabs(r)
 	t := true
 	r.Exhaustive = &t
